@@ -118,7 +118,7 @@ def generate(rng, tier):
                 warnings.simplefilter("ignore")
                 obj = xbuild.definition(dsx)
                 obj.date = xmlops.FIXED_DATE
-                obj.space_system_name = rng.choice([None, "SYS"])
+                obj.space_system_name = rng.choice([None, "SYS", "A--B", "x -- y-"])
                 u = rng.choice(URIS)
                 obj.ns, obj.xtce_schema_uri = {"xtce": u}, u
             yield f"cycleobj {sx(xser.ldef(obj))}", "from-objects"
